@@ -323,6 +323,8 @@ def check_main(args):
             a[f] += out[f]
         for n, c in out['ob_names'].items():
             a['ob_names'][n] = a['ob_names'].get(n, 0) + c
+        a['identities'] = a.get('identities', 0) + out.get('identities', 0)
+        a['canonical'] = a.get('canonical', 0) + out.get('canonical', 0)
         a['failures'] += out['failures'][:20]
         a['inconclusive'] += out['inconclusive'][:20]
         a['errors'] += out['errors'][:20]
@@ -475,6 +477,8 @@ def check_main(args):
         instances=len(agg), instances_completed=sum(1 for a in agg.values() if a['done']),
         infeasible_paths_pruned=tot('aborted'), solver_queries=tot('checks'), solver_seconds=round(tot('ztime'), 2),
         unknown_branches=tot('unknown_branches'),
+        obligations_closed_by_polynomial_normalisation=sum(a.get('identities', 0) for a in agg.values()),
+        obligations_closed_by_canonical_one_shot_query=sum(a.get('canonical', 0) for a in agg.values()),
         exhaustive=bool(all(a['done'] for a in agg.values()) and not inconclusive),
         bounds=getattr(mod, 'BOUNDS', {}).get(tier, getattr(mod, 'BOUNDS', {})) if isinstance(getattr(mod, 'BOUNDS', {}), dict) else {},
         functions_encoded=sorted(functions)[:400],
